@@ -94,6 +94,27 @@ pub fn c02(out: &mut Out, ex: &mut Exec, seed: u64, thorough: bool, check_spans:
         if seen.insert(text.clone()) { out.nontrivial += 1; }
         if out.samples.len() < 5 && nf > 0 { let mut j = Json::obj(); j.set("source", Json::s(text)); j.set("faults", Json::s(format!("{faults:?}"))); j.set("result", Json::s(r.chars().take(100).collect::<String>())); out.sample(j); }
     }
+    if check_spans {
+        // non-ASCII labels: upper-casing may change the byte length of the name (known finding F21 when it does)
+        let mut f21 = 0;
+        for i in 0..if thorough { 3000 } else { 300 } {
+            let ch = *rng.pick(&['ŉ', 'ǰ', 'ﬁ', 'ß', 'é', 'ΐ', 'ſ', 'ı', 'ö', 'ǆ']);
+            let name: String = format!("{}{}{}", rng.pick(&["L", "x_", "Lab"]), ch, if rng.bool() { "2" } else { "" });
+            let changes = name.to_uppercase().len() != name.len();
+            let pad = " ".repeat(rng.below(3) as usize);
+            let text = if i % 2 == 0 { format!(".orig x3000\n{pad}{name} ADD R0,R0,#0\n{name}: ADD R0,R0,#1\n.end") } else { format!(".orig x3000\n{name}\n ADD R0,R0,#0\n.external {name}\n.end") };
+            let line = format!("asm s 1 {}", hx(&text));
+            let r = run(out, ex, &line); out.evaluations += 1;
+            let mut it = r.split(' '); it.next(); let kind = it.next().unwrap_or("?"); let spans = it.next().unwrap_or("");
+            if kind != "duplabel" { out.fail(out.lines, format!("duplicate non-ASCII label not rejected as duplabel: {r} :: {text:?}"), line.clone()); continue; }
+            for x in spans.split(',') { let Some((a, b)) = x.split_once("..") else { continue }; let (a, b): (usize, usize) = (a.parse().unwrap_or(usize::MAX), b.parse().unwrap_or(0));
+                let ok = a <= b && b <= text.len() && text.is_char_boundary(a) && text.is_char_boundary(b) && up(&text[a..b]) == up(&name);
+                if !ok { let tag = if changes { "F21:uppercase-changes-byte-length " } else { "" };
+                    if changes { f21 += 1; if f21 > 3 { continue; } }
+                    out.fail(out.lines, format!("{tag}span {a}..{b} of duplabel does not cover the label {name:?} (upper-cased {:?}) in {text:?}", name.to_uppercase()), line.clone()); } }
+            out.hist.hit(if changes { "nonascii_label_length_changing" } else { "nonascii_label_same_length" });
+        }
+    }
     out.rule = "generated programs with 0 (20%), 1 (60%) or 2-3 (20%) injected faults of 14 kinds (missing/extra .end, missing/nested .orig, statements and labels outside blocks, duplicate labels in another case, undefined labels, a label exactly at and exactly one past the reach of 9- and 11-bit offsets in both directions, blocks ending at/after xFE00 and x10000 incl. one-statement jumps, touching and overlapping blocks, external labels in PC-relative operands), assembled with and without debug symbols; oracle: an independent scan computes the set of violated conditions; accepted iff the set is empty, and the error kind must belong to it; spans: non-empty, inside the source, on char boundaries, label errors cover a spelling of an offending label".into();
 }
 
